@@ -82,6 +82,11 @@ func rdText(class, owner string, j, n int) rdLine {
 		l := rdLine{Class: class, Text: fmt.Sprintf("%s is the type, line %d.", owner, n)}
 		l.Stripped = strings.TrimSpace(strings.TrimPrefix(l.Text, owner))
 		return l
+	case "namedouble":
+		// the text after the name starts with the name again
+		l := rdLine{Class: class, Text: fmt.Sprintf("%s %s-friendly text, line %d.", owner, owner, n)}
+		l.Stripped = strings.TrimSpace(strings.TrimPrefix(l.Text, owner))
+		return l
 	case "tagplus":
 		t = fmt.Sprintf("+k8s:x=%d-%d", j, n)
 	case "tagat":
@@ -149,6 +154,12 @@ func rdConcretise(j int, rc rdCase) rdConc {
 			eb.WriteString("\tEF string\n}\n")
 			extra += eb.String()
 			cc.Fields = append(cc.Fields, f, scalarF("K", true, []string{"plain"}))
+		case "embedDocumented":
+			// the embedding itself is documented; the inner field is not: the answer is an empty doc, and true
+			en := fmt.Sprintf("E%d", j)
+			f := rdField{Name: en, Exported: true, FType: "named", Embedded: "value", Doc: rdLines([]string{"plain"}, "zz", j), InnerName: "EF", InnerDoc: []rdLine{}, typeSrc: en}
+			extra += fmt.Sprintf("\n// %s is embedded.\ntype %s struct {\n\tEF string\n}\n", en, en)
+			cc.Fields = append(cc.Fields, f, scalarF("K", true, rc.FDoc))
 		case "noExported":
 			cc.Fields = append(cc.Fields, scalarF("g", false, rc.FDoc))
 		case "namedCovered":
@@ -327,7 +338,7 @@ func rdModule(from, to, perPkg int, concs []rdConc, obsOf []map[string]any) erro
 	for p := from; p < to; p += perPkg {
 		pkg := fmt.Sprintf("pk%d", p)
 		var src, probes strings.Builder
-		fmt.Fprintf(&src, "package %s\n\n", pkg)
+		fmt.Fprintf(&src, "package %s\n\n// A0first sorts before every other type of the package and renders nothing (no exported field).\ntype A0first struct {\n\thidden int\n}\n\n", pkg)
 		fmt.Fprintf(&probes, "package %s\n\n// Probes hands the probe program one value of every type of the package.\nfunc Probes() map[int]any {\n\treturn map[int]any{\n", pkg)
 		for j := p; j < min(p+perPkg, to); j++ {
 			pkgOf[j] = pkg
